@@ -23,13 +23,34 @@ IS_COPY = BC + 'copy::CopyChecker::is_copy'
 GET_CLONE = BC + 'clone::get_clone_component_id'
 
 
+_wrap_cache = {}
+
+
+def wrappers_of(ctx, target):
+    """`target` plus the functions of the borrow-checker module through which it is reached (a wrapper such as
+    `get_clone_component_id_for_node(graph, node, ..)` consults the same oracle)"""
+    key = (id(ctx.fb), target)
+    if key not in _wrap_cache:
+        from ..callgraph import CallGraph
+        k2 = (id(ctx.fb), 'cg')
+        if k2 not in _wrap_cache:
+            _wrap_cache[k2] = CallGraph(ctx.fb, [('pavexc', 'Rlib')])
+        cg_ = _wrap_cache[k2]
+        # (a pass that itself reports ownership errors is a client of the oracle, not a wrapper of it)
+        _wrap_cache[key] = {f for f in cg_.reaching({target}) if f == target or (
+            f.startswith(BC) and '::{closure' not in f and not any(c.split('::')[-1].startswith('emit_') for c in cg_.edges.get(f, ())))}
+    return _wrap_cache[key]
+
+
 def consulting_blocks(ctx, b, target):
-    """blocks of b that call `target` directly, or call something with a closure of b's item whose body calls `target`"""
+    """blocks of b that call `target` (directly or through a wrapper of the borrow-checker module), or call something with a closure of b's
+    item whose body calls it"""
     out = []
+    targets = wrappers_of(ctx, target) - {b.nroot}
     closures = {x.id: x for x in ctx.fb.bodies_of_item('pavexc', b.nroot) if x is not b}
-    uses_target = {cid for cid, x in closures.items() if any(callee(t) == target for _, t in x.calls())}
+    uses_target = {cid for cid, x in closures.items() if any(callee(t) in targets for _, t in x.calls())}
     for bb, t in b.calls():
-        if callee(t) == target:
+        if callee(t) in targets:
             out.append(bb)
             continue
         for a in t['args']:
@@ -70,8 +91,9 @@ def r1_exemptions_first(ctx):
     n_copy = 0
     for fn in (BC + 'multiple_consumers::multiple_consumers', BC + 'move_while_borrowed::try_clone', BC + 'complex::complex_borrow_check',
                BC + 'assign_order::{impl pavexc::compiler::analyses::call_graph::borrow_checker::ordered_call_graph::OrderedCallGraph}::order'):
+        from .compiler_common import family_bodies
         bodies = ctx.fb.bodies_of_item('pavexc', fn)
-        has = any(callee(t) == IS_COPY for x in bodies for _, t in x.calls())
+        has = any(callee(t) in wrappers_of(ctx, IS_COPY) for x in family_bodies(ctx, 'pavexc', [fn]) for _, t in x.calls())
         n_copy += 1 if has else 0
         ctx.ob('C02.R1', 'copy-exemption|%s' % fn.split('::')[-1], has, bodies[0].loc() if bodies else '', '%s consults CopyChecker::is_copy: %s' % (fn.split('::')[-1], has))
     ctx.floor('C02.R1', 'passes that apply the Copy exemption', n_copy, 4)
@@ -104,7 +126,8 @@ def r2_control_flow_test(ctx):
                 # error reachable only from the "not empty" (0) edge
                 ok = all(e not in b.reachable(w['else'], avoid=zero + [eb]) for e in em) and all(b.dominates(eb, e) for e in em)
     ctx.ob('C02.R2', 'error-only-with-competing-consumers', ok, b.loc(em[0]) if em else b.loc(), 'competing_consumer_sets.is_empty() dominates the error and the error is unreachable from its true branch: %s' % ok)
-    hp = [bb for x in ctx.fb.bodies_of_item('pavexc', fn) for bb, t in x.calls() if (callee(t) or '').endswith('has_path_connecting')]
+    from .compiler_common import family_bodies
+    hp = [bb for x in family_bodies(ctx, 'pavexc', [fn]) for bb, t in x.calls() if (callee(t) or '').endswith('has_path_connecting')]
     ctx.ob('C02.R2', 'competition-is-per-sink', bool(hp), b.loc(), 'competing sets are computed with has_path_connecting(consumer, sink): %s' % bool(hp), nontrivial=False)
 
 
